@@ -484,6 +484,67 @@ fn c01_program(ctx: &mut Ctx) {
     ctx.set_nontrivial(best_chain >= 3 && (last_finite_lo || regs.iter().any(|r| r.lo != 0.0)));
 }
 
+/// The constants as the num_traits accessors hand them out (a trait impl may carry its own literal
+/// instead of forwarding to the published constant): each must be normalised or non-finite too.
+fn c01_trait_constants(ctx: &mut Ctx) {
+    use num_traits::{float::FloatCore, Bounded, Float, FloatConst, One, Zero};
+    use twofloat::TwoFloat as T;
+    let i = ctx.word() as usize;
+    ctx.key_u64(i as u64);
+    let tab: [(&str, fn() -> T); 40] = [
+        ("Float::max_value", <T as Float>::max_value),
+        ("Float::min_value", <T as Float>::min_value),
+        ("Float::min_positive_value", <T as Float>::min_positive_value),
+        ("Float::epsilon", <T as Float>::epsilon),
+        ("Float::infinity", <T as Float>::infinity),
+        ("Float::neg_infinity", <T as Float>::neg_infinity),
+        ("Float::nan", <T as Float>::nan),
+        ("Float::neg_zero", <T as Float>::neg_zero),
+        ("FloatCore::max_value", <T as FloatCore>::max_value),
+        ("FloatCore::min_value", <T as FloatCore>::min_value),
+        ("FloatCore::min_positive_value", <T as FloatCore>::min_positive_value),
+        ("FloatCore::epsilon", <T as FloatCore>::epsilon),
+        ("FloatCore::infinity", <T as FloatCore>::infinity),
+        ("FloatCore::neg_infinity", <T as FloatCore>::neg_infinity),
+        ("FloatCore::nan", <T as FloatCore>::nan),
+        ("FloatCore::neg_zero", <T as FloatCore>::neg_zero),
+        ("Bounded::max_value", <T as Bounded>::max_value),
+        ("Bounded::min_value", <T as Bounded>::min_value),
+        ("Zero::zero", <T as Zero>::zero),
+        ("One::one", <T as One>::one),
+        ("FloatConst::E", <T as FloatConst>::E),
+        ("FloatConst::FRAC_1_PI", <T as FloatConst>::FRAC_1_PI),
+        ("FloatConst::FRAC_1_SQRT_2", <T as FloatConst>::FRAC_1_SQRT_2),
+        ("FloatConst::FRAC_2_PI", <T as FloatConst>::FRAC_2_PI),
+        ("FloatConst::FRAC_2_SQRT_PI", <T as FloatConst>::FRAC_2_SQRT_PI),
+        ("FloatConst::FRAC_PI_2", <T as FloatConst>::FRAC_PI_2),
+        ("FloatConst::FRAC_PI_3", <T as FloatConst>::FRAC_PI_3),
+        ("FloatConst::FRAC_PI_4", <T as FloatConst>::FRAC_PI_4),
+        ("FloatConst::FRAC_PI_6", <T as FloatConst>::FRAC_PI_6),
+        ("FloatConst::FRAC_PI_8", <T as FloatConst>::FRAC_PI_8),
+        ("FloatConst::LN_10", <T as FloatConst>::LN_10),
+        ("FloatConst::LN_2", <T as FloatConst>::LN_2),
+        ("FloatConst::LOG10_E", <T as FloatConst>::LOG10_E),
+        ("FloatConst::LOG2_E", <T as FloatConst>::LOG2_E),
+        ("FloatConst::PI", <T as FloatConst>::PI),
+        ("FloatConst::SQRT_2", <T as FloatConst>::SQRT_2),
+        ("FloatConst::TAU", <T as FloatConst>::TAU),
+        ("FloatConst::LOG10_2", <T as FloatConst>::LOG10_2),
+        ("FloatConst::LOG2_10", <T as FloatConst>::LOG2_10),
+        ("Float::max_value (again)", <T as Float>::max_value),
+    ];
+    let (name, f) = tab[i % tab.len()];
+    ctx.note("accessor", || name.to_string());
+    match guard(f) {
+        Err(m) => ctx.fail(format!("{name}() panicked: {m}")),
+        Ok(t) => {
+            let r = Dd::new(t.hi(), t.lo());
+            check!(ctx, normalised_or_nonfinite(r), "{name}() returned {}: finite high word with an overlapping / non-finite low word", r.show());
+        }
+    }
+    ctx.set_nontrivial(true);
+}
+
 pub fn c01() -> Property {
     Property {
         id: "C01",
@@ -492,6 +553,7 @@ pub fn c01() -> Property {
         subchecks: vec![
             SubCheck { name: "sweep", kind: Kind::Generated { words: 120, max_items: 0 }, eval: c01_sweep, quick: 6_000_000, thorough: 150_000_000 },
             SubCheck { name: "exact_grid", kind: Kind::Enumerated { n: GRID_N }, eval: c01_exact_grid, quick: 0, thorough: 0 },
+            SubCheck { name: "trait_constants", kind: Kind::Enumerated { n: 40 }, eval: c01_trait_constants, quick: 0, thorough: 0 },
             SubCheck { name: "programs", kind: Kind::Generated { words: 48, max_items: 48 }, eval: c01_program, quick: 100_000, thorough: 4_000_000 },
         ],
     }
@@ -773,8 +835,35 @@ fn fma_triple(ctx: &mut Ctx) -> (f64, f64, f64) {
     (x, y, z)
 }
 
+/// IEEE 754 fusedMultiplyAdd for operands that are not all finite: Some(NaN) / Some(+-inf)
+fn fma_special(x: f64, y: f64, z: f64) -> f64 {
+    if x.is_nan() || y.is_nan() || z.is_nan() {
+        return f64::NAN;
+    }
+    if x.is_infinite() || y.is_infinite() {
+        if x == 0.0 || y == 0.0 {
+            return f64::NAN;
+        }
+        let p = if (x < 0.0) != (y < 0.0) { f64::NEG_INFINITY } else { f64::INFINITY };
+        if z.is_infinite() && z != p {
+            return f64::NAN;
+        }
+        return p;
+    }
+    z // x, y finite, z infinite
+}
+
 fn c11_fma(ctx: &mut Ctx) {
-    let (x, y, z) = fma_triple(ctx);
+    let (mut x, mut y, mut z) = fma_triple(ctx);
+    if ctx.chance(1, 32) {
+        // operands from the special values: the exits a wrapper might take before the real fma
+        ctx.label("fma:special-operands");
+        const P: [f64; 12] = [f64::INFINITY, f64::NEG_INFINITY, f64::NAN, 0.0, -0.0, 1.0, -1.0, f64::MAX, f64::MIN, 5e-324, -3.0, 2.0];
+        let i = ctx.bits(12);
+        x = P[(i % 12) as usize];
+        y = P[((i / 12) % 12) as usize];
+        z = P[((i / 144) % 12) as usize];
+    }
     ctx.key_f64(x);
     ctx.key_f64(y);
     ctx.key_f64(z);
@@ -788,11 +877,34 @@ fn c11_fma(ctx: &mut Ctx) {
     if x.is_finite() && y.is_finite() && z.is_finite() {
         let exact = Big::from_f64(x).mul(&Big::from_f64(y)).add(&Big::from_f64(z));
         let want = exact.to_f64_rn();
+        // a zero result carries a sign too: that of the exact value if it is not zero (underflow);
+        // for an exact zero, -0 only when the product and the addend are both -0 (round to nearest)
+        let want = if want == 0.0 {
+            let neg = if !exact.is_zero() {
+                exact.sign() < 0
+            } else if (x == 0.0 || y == 0.0) && z == 0.0 {
+                (x.is_sign_negative() != y.is_sign_negative()) && z.is_sign_negative()
+            } else {
+                false
+            };
+            if neg {
+                -0.0
+            } else {
+                0.0
+            }
+        } else {
+            want
+        };
         for (name, got) in [(fma_hooks::STD_BACKEND, a), (fma_hooks::NOSTD_BACKEND, b)] {
-            check!(ctx, got == want, "fma({}, {}, {}) via {} = {} but the correctly rounded value is {}", showf(x), showf(y), showf(z), name, showf(got), showf(want));
+            check!(ctx, same_word(got, want), "fma({}, {}, {}) via {} = {} but the correctly rounded value is {}", showf(x), showf(y), showf(z), name, showf(got), showf(want));
         }
         let inexact = Big::from_f64(want.clamp(f64::MIN, f64::MAX)) != exact;
         ctx.set_nontrivial(inexact);
+    } else {
+        let want = fma_special(x, y, z);
+        for (name, got) in [(fma_hooks::STD_BACKEND, a), (fma_hooks::NOSTD_BACKEND, b)] {
+            check!(ctx, same_word(got, want), "fma({}, {}, {}) via {} = {} but IEEE 754 gives {}", showf(x), showf(y), showf(z), name, showf(got), showf(want));
+        }
     }
 }
 
